@@ -281,3 +281,11 @@ func fromB(l []B) [][]byte {
 	}
 	return o
 }
+
+// trunc shortens a byte string for descriptions.
+func trunc(b []byte) []byte {
+	if len(b) > 24 {
+		return b[:24]
+	}
+	return b
+}
